@@ -136,6 +136,18 @@ pub fn generate(run_seed: u64, corpus: &Corpus, sw: &Swarm, i: u64, exhaustive: 
     case
 }
 
+/// A fault position: uniform, or biased to the first bytes (BOM / detection) or the last ones.
+fn fault_pos(r: &mut SplitMix64, n: usize) -> usize {
+    if n == 0 {
+        return 0;
+    }
+    match r.below(6) {
+        0 | 1 => r.usize(n.min(5)),
+        2 => n - 1 - r.usize(n.min(4)),
+        _ => r.usize(n),
+    }
+}
+
 fn inject_byte_fault(r: &mut SplitMix64, case: &mut Case, corpus: &Corpus, sw: &Swarm) {
     let n = case.bytes.len();
     let bom_len = if !case.bom {
@@ -148,34 +160,34 @@ fn inject_byte_fault(r: &mut SplitMix64, case: &mut Case, corpus: &Corpus, sw: &
     match r.below(8) {
         0 if n > 0 => {
             // torn write: truncate at a random byte
-            let k = r.usize(n);
+            let k = fault_pos(r, n);
             case.bytes.truncate(k);
             case.faults.push(format!("truncate@{k}"));
             probe(Probe::ByteTruncate);
         }
         1 if n > 0 => {
-            let k = r.usize(n);
+            let k = fault_pos(r, n);
             let bit = r.below(8) as u8;
             case.bytes[k] ^= 1 << bit;
             case.faults.push(format!("flip@{k}.{bit}"));
             probe(Probe::ByteFlip);
         }
         2 if n > 0 => {
-            let k = r.usize(n);
+            let k = fault_pos(r, n);
             let b = if r.chance(1, 2) { *r.pick(&SMALL_ALPHABET) } else { r.below(256) as u8 };
             case.bytes[k] = b;
             case.faults.push(format!("overwrite@{k}={b:02x}"));
             probe(Probe::ByteOverwrite);
         }
         3 => {
-            let k = r.usize(n + 1);
+            let k = fault_pos(r, n + 1);
             let b = if r.chance(1, 2) { *r.pick(&SMALL_ALPHABET) } else { r.below(256) as u8 };
             case.bytes.insert(k, b);
             case.faults.push(format!("insert@{k}={b:02x}"));
             probe(Probe::ByteInsert);
         }
         4 if n > 0 => {
-            let k = r.usize(n);
+            let k = fault_pos(r, n);
             case.bytes.remove(k);
             case.faults.push(format!("delete@{k}"));
             probe(Probe::ByteDelete);
